@@ -23,7 +23,7 @@ NOT_COVERED = ["strategy='update' with horizon-dependent forecasters (direct/mul
                "horizon per fold, which these forecasters reject after the first fold", "fit_params"]
 ASSUMPTIONS = ["splits are taken from the splitter itself (their correctness is C01's business)"]
 JOBS = {"quick": 4, "thorough": 16}
-METRICS = [None, "mape", "asym", "asym_fn", "mse", "smape", "neg_mae", "neg_asym", "rmspe", "mdspe"]    # the last two: user-made scorers declared greater-is-better
+METRICS = [None, "mape", "asym", "asym_fn", "mse", "smape", "neg_mae", "neg_asym", "rmspe", "mdspe", "mdae", "rmse"]    # neg_*: user-made scorers declared greater-is-better
 FORECASTERS = [
     ["spy-naive", {"strategy": "last"}], ["spy-naive", {"strategy": "mean", "window_length": 4}], ["spy-poly", {"degree": 1}],
     ["naive", {"strategy": "drift"}], ["naive", {"strategy": "last", "sp": 3}], ["poly", {"degree": 2}],
@@ -62,6 +62,9 @@ def cases(tier, seed):
             if rng.random() < 0.3:
                 # a window longer than the history before the test points (the splitter documents to use what is there)
                 cv[1]["window_length"] = n - max(fh) + int(rng.integers(1, max(fh) + 1))
+        if cvkind != "single" and rng.random() < 0.15:
+            # the shortest series the splitter accepts: exactly one fold (first window + farthest step = length), or one observation more
+            n = cv[1].get("initial_window", wl) + max(fh) + int(rng.integers(0, 2))
         strategy = "refit" if rng.random() < 0.5 else "update"
         if zoo.requires_fh_in_fit(f) if not f[0].startswith("spy") else False:
             strategy = "refit"
